@@ -125,7 +125,8 @@ def run(prop, tier):
             if "t:" in (la, lb):
                 feats.add("empty_text")
                 feats.add("empty_text_key")
-            if p["cmp"] == 0 and p["a"] != p["b"]:
+            if p["cmp"] == 0 and la != lb:
+                # numerically equal keys with different representations: INTEGER n / REAL n.0, or +0.0 / -0.0
                 feats.add("int_real_twin")
             if 0 < epn <= 4 and dp:
                 feats.add("small_epn")
